@@ -3,6 +3,9 @@
 R-C23.1  mock_builtins: the keys written into f.__globals__ before the `yield` are exactly
          the keys restored/deleted after it; the old values are captured *before* the
          update; the yield sits in a `try` whose `finally` does the restore.
+         Decided semantically when the generator has the form "statements; try: ...yield...;
+         finally: ..." (c23_eval.py, below); the shape rules on how old values are saved and
+         restored apply only otherwise.
 R-C23.2  who-may-write: no other function of the compiler packages writes through
          __globals__/f_globals/f_locals of a user function or frame (allow-list with reasons).
 R-C23.3  trace_function runs the user's function inside `with mock_builtins(python_func)`,
